@@ -101,7 +101,8 @@ pub fn one<S: Settings + serde::Serialize + serde::de::DeserializeOwned + std::f
             }
             if j2 != j { rep.violation("serde.roundtrip", &format!("{name}: decoded settings differ from the original: {} vs {}", j2, j), json!({"kind": "c19", "preset": name, "case": case, "json": j})); }
             if let Some(sane) = sane {
-                let sb: S = serde_json::from_str(&serde_json::to_string(sane).unwrap()).unwrap();
+                let sb: S = match serde_json::from_str(&serde_json::to_string(sane).unwrap()) { Ok(x) => x, Err(e) => {
+                    rep.violation("serde.deserialize", &format!("{name}: deserialisation of its own JSON failed: {e}"), json!({"kind": "c19", "preset": name, "case": case, "json": serde_json::to_value(sane).unwrap()})); return; } };
                 match same_chain(sane, &sb) {
                     Ok(true) => rep.nontrivial += 1,
                     Ok(false) => rep.violation("serde.same_chain", &format!("{name}: chain built from deserialised settings draws differently"), json!({"kind": "c19", "preset": name, "case": case, "json": serde_json::to_value(sane).unwrap()})),
